@@ -136,6 +136,12 @@ func checkC06(p *Program, r *Report) {
 	}
 	canonicalInput(p, r, "C06.canon", []*ssa.Function{fn})
 	base58ByteLookup(p, r, "C06.canon")
+	memoCoherence(p, r, "C06.memo", "", "WIF", nil)
+	if n := rejectionVocabulary(p, r, "C06.accepts", fn, []string{`len\(call .*base58\.Decode\)`, `call .*base58\.Decode\[33\]`, `call bytes\.Equal`},
+		"the decoded length, the compression marker and the checksum"); n == 0 {
+		r.Unresolved("C06.accepts", "rejection tests of DecodeWIF")
+	}
+	r.Floor("C06.accepts", 3)
 	r.Floor("C06.len", 1)
 	r.Floor("C06.canon", 1)
 	r.Floor("C06.pub", 1)
